@@ -108,8 +108,10 @@ EXPECTED = [
         ("operand_is_aspolynomial", "poly = numpoly.aspolynomial(poly)"),
         ("nonconstant_refused",
          "if not poly.isconstant():\n    raise numpoly.FeatureNotSupported('only constant polynomials can be converted to array.')"),
-        ("the_one_zero_exponent_row", "v0 = numpy.argwhere(numpy.all(poly.exponents == 0, -1)).item()"),
-        ("its_coefficients", "if poly.size:\n    return numpy.array(poly.coefficients[v0])"),
+        ("zero_exponent_rows", "v0 = numpy.argwhere(numpy.all(poly.exponents == 0, -1))"),
+        ("no_constant_term_is_zero", "if not v0.size:\n    return numpy.zeros(poly.shape, dtype=poly.dtype)"),
+        ("the_one_zero_exponent_row", "v1 = v0.item()"),
+        ("its_coefficients", "if poly.size:\n    return numpy.array(poly.coefficients[v1])"),
         ("empty", "return numpy.array([])"),
     ]),
     ("decompose.py", "decompose", ["poly"], [
